@@ -12,6 +12,8 @@ TRUSTED = ["theorems C08_* over an arbitrary field; correspondence ops: srp_prov
 ASSUMPTIONS = ["'on no tuple differing in any coordinate': proved for single-coordinate differences; a multi-coordinate "
                "difference is accepted iff <Y~, m - m'> = 0 (theorem), which needs a discrete log of the key (not proved)"]
 NS = [1, 2, 3, 5, 8, 13, 17, 34]
+G1_COFACTOR = 0x396c8c005555e1568c00aaab0000aaab
+G1_ID_HEX = "c0" + "00" * 47
 
 
 def run(run, h):
@@ -84,11 +86,11 @@ def one(run, h, batch, rng, key):
     # tampered requests
     def tamper(kind, wire, cx):
         h.begin()
-        tt = h.call("srp_verify", n, key["pk_hex"], wire, "p", hx(cx))
+        tt = h.try_call("srp_verify", n, key["pk_hex"], wire, "p", hx(cx))     # None: the request does not even decode
         tc = dict(case, tamper=kind, script=h.end())
         run.case(tc)
         run.count("tamper " + kind.split(":")[0])
-        run.check_monitor("tampered_request_yields_nothing", tt[0] == "0", tc)
+        run.check_monitor("tampered_request_yields_nothing", tt is None or tt[0] == "0", tc)
 
     def pt_add(hexpt, d):
         return h.call("g1lin", hexpt, sc(1), basis.g1(d), sc(1))[0]
@@ -100,4 +102,35 @@ def one(run, h, batch, rng, key):
         rs2[j] = (rs2[j] + rng.choice([1, Q - 1, rand_nz(rng)])) % Q
         tamper("r:%d" % j, cp_bytes(p["C"], p["T"], p["rbf"], rs2), ctx)
     tamper("challenge", proof, rng.randbytes(7))
+    # a field replaced by a curve point outside the prime-order subgroup (not a group element at all)
+    tamper("C_outside_subgroup", cp_bytes(h.call("offsub", 1, rng.randrange(2 ** 31))[0], p["T"], p["rbf"], p["rs"]), ctx)
+    tamper("T_outside_subgroup", cp_bytes(p["C"], h.call("offsub", 1, rng.randrange(2 ** 31))[0], p["rbf"], p["rs"]), ctx)
+    # the commitment plus a point of small order (3 or 11: the cofactor of G1 is 3 * (11 * 10177 * 859267 * 52437899)^2 and the
+    # curve's 11-torsion is Z_11 x Z_11, hence the exponents q*h/3 and q*h/121), with responses made for a challenge
+    # that the small order divides: if such an encoding decoded at all, the Schnorr equation would hold for a value that is
+    # not the commitment the proof is about
+    for order in (3, 11):
+        small = None
+        for _ in range(6):
+            cand = h.call("g1_curve_mul", rng.randrange(2 ** 31), hx((Q * G1_COFACTOR // (3 if order == 3 else 121)).to_bytes(49, "big")))[0]
+            if cand != G1_ID_HEX:
+                small = cand
+                break
+        if small is None:
+            continue
+        c_bad = h.call("g1_add_unchecked", p["C"], small)[0]
+        for _ in range(16):
+            cx = rng.randbytes(7)
+            t0 = h.try_call("srp_verify", n, key["pk_hex"], cp_bytes(c_bad, p["T"], 0, [0] * n), "p", hx(cx))
+            if t0 is None:
+                break                                   # does not decode: nothing to obtain
+            cc = unsc(t0[1])
+            if cc % order == 0:
+                rs2 = [(cc * m + k) % Q for m, k in zip(ms, ks_r)]
+                tamper("C_plus_point_of_order_%d" % order, cp_bytes(c_bad, p["T"], (cc * bf_r + kbf_r) % Q, rs2), cx)
+                break
+        else:
+            continue
+        if t0 is None:
+            tamper("C_plus_point_of_order_%d" % order, cp_bytes(c_bad, p["T"], p["rbf"], p["rs"]), ctx)
     tamper("swapped_C_T", cp_bytes(p["T"], p["C"], p["rbf"], p["rs"]), ctx)
